@@ -137,6 +137,10 @@ def run(repo: Repo, rep: Report, tier: str) -> None:
     from . import c19 as _c19, c13 as _c13
     _c19._flag_contract(repo, _Only8(rep, {"R19.6"}))
     _c13._merge(repo, _Only8(rep, {"R13.1"}))
+    from ..core.report import Only as _OnlyX
+    from ..core import corpus as _corpusX
+    from . import c14 as _c14x
+    _c14x._ownership(repo, _OnlyX(rep, {"R14.8", "R14.9"}))
 
 def _r08_2(repo: Repo, rep: Report) -> None:
     fi = repo.func(M_BUILDER, "CodeBuilder.get_dialect_or_config_option")
@@ -273,3 +277,6 @@ LEVEL_TEXT += _ADD3
 _ADD21 = ' Borrowed: R19.6 (flag forwarding), R13.1 (Dialect.merge).'
 EXPLANATION += _ADD21
 LEVEL_TEXT += _ADD21
+_ADD22 = ' Borrowed: R14.8 / R14.9.'
+EXPLANATION += _ADD22
+LEVEL_TEXT += _ADD22
